@@ -1,0 +1,11 @@
+//go:build !verif
+// +build !verif
+
+package gocql
+
+import "context"
+
+func verifConn(point string, c *Conn, call *callReq, a, b int)             {}
+func verifConnErr(point string, c *Conn, call *callReq, a int, err error)  {}
+func verifCtx(ctx context.Context, c *Conn, call *callReq)                 {}
+func verifEvent(point string, obj interface{}, s string, a int, err error) {}
